@@ -880,7 +880,7 @@ def _binary(func_name, x, y):
     if (out := getattr(y_dtype._ops, func_name)(x, y)) is not NotImplemented:
         return out
     raise UnsupportedOperationError(
-        f"Unsupported operand type(s) for {func_name}: '{x.dtype}' and '{y.dtype}'"
+        f"Unsupported operand type(s) for {func_name}: '{x_dtype}' and '{y_dtype}'"
     )
 
 
